@@ -415,7 +415,12 @@ func RunCase(c *Case) (err error) {
 			return r.errf("final FOpen(%s): %v", fname(i), e)
 		}
 		var all []byte
-		buf := make([]byte, chunk)
+		// bound the number of round trips: at most ~130 reads per file
+		eff := chunk
+		if lo := uint32(len(r.models[i])/128 + 1); eff < lo {
+			eff = lo
+		}
+		buf := make([]byte, eff)
 		for rounds := 0; ; rounds++ {
 			n, e := f.Read(buf)
 			if n < 0 || n > len(buf) {
@@ -428,13 +433,13 @@ func RunCase(c *Case) (err error) {
 			if n == 0 {
 				break
 			}
-			if len(all) > len(r.models[i])+int(chunk) {
+			if len(all) > len(r.models[i])+int(eff) {
 				break
 			}
 		}
 		if !bytes.Equal(all, r.models[i]) {
 			d := firstDiff(all, r.models[i])
-			return r.errf("final sequential read of %s with %d-byte buffers: got %d bytes, file has %d, first difference at byte %d", fname(i), chunk, len(all), len(r.models[i]), d)
+			return r.errf("final sequential read of %s with %d-byte buffers: got %d bytes, file has %d, first difference at byte %d", fname(i), eff, len(all), len(r.models[i]), d)
 		}
 		if e := f.Close(); e != nil {
 			return r.errf("final Close(%s): %v", fname(i), e)
